@@ -132,3 +132,166 @@ PROPS = {
         'assumptions': ['leaf tests are read from the layout state as Switch::actions receives them; how layout.rs builds those iterators is covered by the layout model, not here'],
     },
 }
+
+
+# ----------------------------------------------------------------------------- C13 (global overrides)
+_C13_NAMES = {29: 'lctl', 42: 'lsft', 56: 'lalt', 125: 'lmet', 97: 'rctl', 54: 'rsft', 100: 'ralt', 126: 'rmet',
+              30: 'a', 48: 'b', 46: 'c', 32: 'd', 2: '1', 3: '2', 10: '9', 57: 'spc'}
+
+
+def _c13_parse(case):
+    """case line -> dict(mode, roa, table [(ins, outs)], ks, carry, hist [(kind, n)])"""
+    t = case.split()
+    i = [2]
+
+    def tok():
+        i[0] += 1
+        return t[i[0] - 1]
+
+    def lst():
+        n = int(tok())
+        return [int(tok()) for _ in range(n)]
+
+    d = {'mode': t[1], 'roa': None, 'ks': None, 'carry': None, 'hist': None}
+    if d['mode'] in ('P', 'PM'):
+        assert tok() == 'R'
+        d['roa'] = int(tok())
+    assert tok() == 'T'
+    n = int(tok())
+    tbl = []
+    for _ in range(n):
+        assert tok() == 'I'
+        a = lst()
+        assert tok() == 'O'
+        tbl.append((a, lst()))
+    d['table'] = tbl
+    if d['mode'] in ('L', 'LM'):
+        assert tok() == 'K'
+        d['ks'] = lst()
+        assert tok() == 'C'
+        d['carry'] = lst()
+    else:
+        assert tok() == 'H'
+        n = int(tok())
+        d['hist'] = [(tok(), int(tok())) for _ in range(n)]
+    return d
+
+
+def _c13_unparse(d):
+    def lst(l):
+        return ' '.join([str(len(l))] + [str(x) for x in l])
+    out = ['C13', d['mode']]
+    if d['roa'] is not None:
+        out += ['R', str(d['roa'])]
+    out += ['T', str(len(d['table']))]
+    for a, b in d['table']:
+        out += ['I', lst(a), 'O', lst(b)]
+    if d['ks'] is not None:
+        out += ['K', lst(d['ks']), 'C', lst(d['carry'])]
+    else:
+        out += ['H', str(len(d['hist']))] + [f'{k} {n}' for k, n in d['hist']]
+    return ' '.join(out)
+
+
+def _c13_shrink(case):
+    try:
+        d = _c13_parse(case)
+    except Exception:
+        return
+    for j in range(len(d['table'])):
+        yield _c13_unparse(dict(d, table=d['table'][:j] + d['table'][j + 1:]))
+    for j, (a, b) in enumerate(d['table']):
+        for side, l in ((0, a), (1, b)):
+            for x in range(len(l)):
+                l2 = l[:x] + l[x + 1:]
+                row = (l2, b) if side == 0 else (a, l2)
+                yield _c13_unparse(dict(d, table=d['table'][:j] + [row] + d['table'][j + 1:]))
+    if d['ks'] is not None:
+        if d['carry']:
+            yield _c13_unparse(dict(d, carry=[]))
+        for j in range(len(d['ks'])):
+            yield _c13_unparse(dict(d, ks=d['ks'][:j] + d['ks'][j + 1:]))
+    else:
+        h = d['hist']
+        for j in range(len(h)):
+            yield _c13_unparse(dict(d, hist=h[:j] + h[j + 1:]))
+        for j, (k, n) in enumerate(h):
+            if k == 't' and n > 1:
+                yield _c13_unparse(dict(d, hist=h[:j] + [(k, 1 if n > 9 else n - 1)] + h[j + 1:]))
+
+
+def _c13_describe(case):
+    try:
+        d = _c13_parse(case)
+    except Exception:
+        return case
+    nm = lambda l: ' '.join(_C13_NAMES.get(x, str(x)) for x in l)
+    txt = '(defoverrides ' + ' '.join(f'({nm(a)}) ({nm(b)})' for a, b in d['table']) + ')'
+    if d['ks'] is not None:
+        return f'{txt}; Overrides::override_keys on the key list [{nm(d["ks"])}] (a second OverrideStates first used on [{nm(d["carry"])}])'
+    sim = ' '.join({'p': 'd:', 'r': 'u:', 't': 't:'}[k] + (_C13_NAMES.get(n, str(n)) if k != 't' else str(n)) for k, n in d['hist'])
+    return f'(defcfg override-release-on-activation {"yes" if d["roa"] else "no"}) (defsrc) (deflayer base) {txt}; simulated input: {sim}'
+
+
+def _c13_project(out):
+    """what the OS sees: the set of held keys (list cases) / after every tick (pipeline cases)"""
+    if out.startswith('keys '):
+        ks = out.split()[1]
+        s = sorted(set(int(x) for x in ks.split(','))) if ks != '-' else []
+        return 'held ' + (','.join(map(str, s)) if s else '-')
+    if out.startswith('@'):
+        recs = [r.split() for r in out.split(' | ') if r.startswith('@')]
+        return ' | '.join(r[0] + ' ' + r[-1] for r in recs)
+    return out
+
+
+def _c13_nontrivial(case, impl):
+    # an override actually fired: something was marked for removal
+    if impl.startswith('keys '):
+        return ' rm - ' not in impl.split(' | ')[0] + ' '
+    return bool(re.search(r' r:\d', impl))
+
+
+def _c13_stats(cases, impl):
+    import collections
+    d = collections.Counter()
+    for c, i in zip(cases, impl):
+        mode = c.split()[1]
+        d['mode_' + mode] += 1
+        if i.startswith('rej'):
+            d['rejected_by_parser_' + i.split()[1]] += 1
+            continue
+        if i.startswith('crash'):
+            d['crash'] += 1
+            continue
+        d['override_fired' if _c13_nontrivial(c, i) else 'no_override_fired'] += 1
+        if i.endswith('late=1'):
+            d['modifier_after_its_key'] += 1
+        if mode in ('L', 'LM'):
+            n = int(re.search(r' K (\d+)', c).group(1))
+            d['list_len_0_2' if n <= 2 else 'list_len_3_4' if n <= 4 else 'list_len_5_plus'] += 1
+            nt = int(re.search(r' T (\d+)', c).group(1))
+            d['table_1' if nt == 1 else 'table_0' if nt == 0 else 'table_2_plus'] += 1
+        else:
+            d['roa_on' if ' R 1 ' in c else 'roa_off'] += 1
+            if re.search(r'\.3\b', i):
+                d['eager_erasure_marked'] += 1
+    return dict(d)
+
+
+PROPS['C13'] = {
+    'lean_modules': ['KVerif.Props.C13'],
+    'oracle_project': _c13_project,
+    'nontrivial': _c13_nontrivial,
+    'shrink_candidates': _c13_shrink,
+    'describe': _c13_describe,
+    'per_case_timeout': 0.5,
+    'rule': 'list cases (L): table parsed by the real parser from generated (defoverrides ...) text, Overrides::override_keys on a key list with a fresh and a carried-over OverrideStates: every subset of the 8 modifiers as input and as output modifiers; for each of a set of generated tables (1-5 overrides, shared keys, nested and equally long modifier sets, duplicates) every list of length <= 4 without repetition over the table keys plus outsiders in every order and every list with repetitions up to length 3; random longer lists; refused tables; empty table.  pipeline cases (P): random press/release histories (consistent and inconsistent) through Kanata::handle_input_event/tick_ms with override-release-on-activation on/off, compared tick by tick (OS events, prev_keys, removed keys, layout states with flags, OS-held set).  LM/PM = the same inputs compared with the model only.  non-trivial = an override fired; distinct = distinct case line',
+    'stats': _c13_stats,
+    'trusted_base': ['Model/Override.lean as a transcription of key_override.rs and of the plain-key slice of handle_keystate_changes / Layout::tick (checked differentially, state level, not proved)',
+                     'gen/g_override.py (modifier tables, flag constants and capacities regenerated from source)',
+                     'the rest of the config parser around parse_overrides, the simulated output sink (exercised, not modelled)'],
+    'assumptions': ['KeyCode<->OsCode conversion preserves key identity (C11)',
+                    'pipeline model: every key mapped to itself ((defsrc) (deflayer base)), no other action kinds, so layout.states holds NormalKey states only; unmod/unshift, caps-word and sequences are inactive',
+                    'the statement is silent (no oracle) where two equally long matching overrides of a key have different effects or a modifier is written twice in an input list'],
+}
